@@ -59,4 +59,8 @@ func checkC02(c *Ctx) {
 	c.codecLengthTables()
 	// the QoS 2 table of a clean session is not inherited: the CleanSession bit is what the setters of the other flags leave it
 	c.flagBitTables()
+	// a repeated PUBLISH (DUP) and a PUBREL are packets the header decoder lets through
+	c.headerByteRefusals()
+	// what is handed on in the client role goes to the callbacks of that client
+	c.providerWiring(false, true)
 }
